@@ -1,6 +1,6 @@
 //! Contracts for `core/src/lower.rs` (child module: sees `HugeEntry`, `Lower { len, bitfields, children }`).
 use super::*;
-use crate::bitfield::verif_contracts::{blk, blk_all, rows_eq, rows_of, rows_with_blk, Blk, Rows};
+use crate::bitfield::verif_contracts::{any_rows, blk, blk_all, for_rows, rows_eq, rows_of, rows_with_blk, Blk, Rows};
 use crate::verif_contracts::{clause, vcover};
 
 const ROWS: usize = HUGE_FRAMES / 64;
@@ -77,11 +77,9 @@ impl LState {
         };
         let mut h = 0;
         while h < NBF {
-            let mut r = 0;
-            while r < ROWS {
+            for_rows!(r, {
                 crate::bitfield::verif_contracts::set_row_raw(&s.bfs[h], r, rows[h][r]);
-                r += 1;
-            }
+            });
             s.ch[h / TREE_HUGE][h % TREE_HUGE].store(HugeEntry::from_bits(ent[h]));
             h += 1;
         }
@@ -112,13 +110,11 @@ impl LState {
 
 fn all_rows(rows: &Rows, v: u64) -> bool {
     let mut ok = true;
-    let mut r = 0;
-    while r < ROWS {
+    for_rows!(r, {
         if rows[r] != v {
             ok = false;
         }
-        r += 1;
-    }
+    });
     ok
 }
 pub(crate) fn ent_huge(e: u16) -> bool {
@@ -211,7 +207,7 @@ pub(crate) fn block_allocated_b(s: &LSnap, f: usize, order: usize, b: &Blk) -> b
 }
 
 fn any_state() -> (LState, LSnap) {
-    let rows: [Rows; NBF] = kani::any();
+    let rows: [Rows; NBF] = core::array::from_fn(|_| any_rows());
     let ent: [u16; NBF] = kani::any();
     let z: [usize; NBF] = kani::any();
     let st = LState::from(&rows, &ent);
@@ -417,7 +413,8 @@ macro_rules! lower_harness {
     ($f:ident, $o:expr, $($name:ident: $h:expr),+) => {
         $(
         #[kani::proof]
-        #[kani::unwind(10)]
+        #[cfg_attr(any(feature = "verif_nt2", feature = "tree_huge_8", feature = "16K"), kani::unwind(10))]
+        #[cfg_attr(not(any(feature = "verif_nt2", feature = "tree_huge_8", feature = "16K")), kani::unwind(6))]
         #[kani::solver(kissat)]
         #[kani::stub(crate::atomic::Atom::try_update, crate::atomic::Atom::try_update_seq)]
         #[kani::stub(crate::atomic::Atom::update, crate::atomic::Atom::update_seq)]
@@ -439,12 +436,10 @@ include!("_lower_harnesses.rs");
 fn prefix_rows(k: usize) -> Rows {
     // bits [0,k) zero, bits [k,LEN) one
     let mut r = [0u64; ROWS];
-    let mut i = 0;
-    while i < ROWS {
+    for_rows!(i, {
         let lo = i * 64;
         r[i] = if k >= lo + 64 { 0 } else if k <= lo { u64::MAX } else { u64::MAX << (k - lo) };
-        i += 1;
-    }
+    });
     r
 }
 /// Bits at or beyond the managed range are set in bitfield `h`.
@@ -452,13 +447,11 @@ fn tail_set(rows: &Rows, h: usize, frames: usize) -> bool {
     let k = if frames >= (h + 1) * LEN { LEN } else if frames <= h * LEN { 0 } else { frames - h * LEN };
     let t = prefix_rows(k);
     let mut ok = true;
-    let mut i = 0;
-    while i < ROWS {
+    for_rows!(i, {
         if rows[i] & t[i] != t[i] {
             ok = false;
         }
-        i += 1;
-    }
+    });
     ok
 }
 pub(crate) fn wf_lower_frames(s: &LSnap, frames: usize) -> bool {
@@ -497,7 +490,7 @@ fn any_frames_with<const B: usize>() -> usize {
     (B - 1) * LEN + k
 }
 fn any_raw_state() -> (LState, [Rows; NBF], [u16; NBF]) {
-    let rows: [Rows; NBF] = kani::any();
+    let rows: [Rows; NBF] = core::array::from_fn(|_| any_rows());
     let ent: [u16; NBF] = kani::any();
     (LState::from(&rows, &ent), rows, ent)
 }
@@ -794,3 +787,89 @@ impl<'a> Lower<'a> {
         Stats { free_frames: free, free_huge: kani::any(), free_trees: kani::any() }
     }
 }
+
+// ---------------------------------------------------------------------------------------------
+// C04: exact statistics and per-frame / per-huge-frame / per-tree queries agree with the view
+// (every frame count shape of one full tree; zeros through the ghost z with lemma instances)
+// ---------------------------------------------------------------------------------------------
+fn view_free_in(s: &LSnap, h: usize) -> usize {
+    if ent_huge(s.ent[h]) { 0 } else { s.z[h] }
+}
+fn check_stats() {
+    let (st, old) = any_state();
+    let lower = st.lower_shaped::<NBF>(NT * TREE_FRAMES);
+    let s = lower.stats();
+    let mut free = 0;
+    let mut free_huge = 0;
+    let mut free_trees = 0;
+    let mut t = 0;
+    while t < NT {
+        let mut tf = 0;
+        let mut j = 0;
+        while j < TREE_HUGE {
+            let f = view_free_in(&old, t * TREE_HUGE + j);
+            tf += f;
+            free_huge += (f == LEN) as usize;
+            j += 1;
+        }
+        free += tf;
+        free_trees += (tf == TREE_FRAMES) as usize;
+        t += 1;
+    }
+    clause!(s.free_frames == free, "C04: the exact free-frame count equals the number of free frames");
+    clause!(s.free_huge == free_huge, "C04: the count of entirely free huge frames agrees with the allocation state");
+    clause!(s.free_trees == free_trees, "C04: the count of entirely free trees agrees with the allocation state");
+    clause!(unchanged(&old, &st.snap(old.z)), "stats is read-only");
+}
+fn check_stats_at<const H: usize>() {
+    let (st, old) = any_state();
+    let lower = st.lower_shaped::<NBF>(NT * TREE_FRAMES);
+    let off: usize = kani::any();
+    kani::assume(off < LEN);
+    let f = H * LEN + off;
+    let b = blk(off, 0);
+    kani::assume(ghost_zeros_block_fact(&old, H, &b, 0));
+    let s0 = lower.stats_at(FrameId(f), 0);
+    clause!(s0.free_frames == (!alloc(&old, f)) as usize, "C04: the per-frame query reports a frame free exactly when it is free");
+    let s1 = lower.stats_at(FrameId(f), HUGE_ORDER);
+    clause!(s1.free_frames == view_free_in(&old, H) && s1.free_huge == (view_free_in(&old, H) == LEN) as usize, "C04: the per-huge-frame query agrees with the allocation state");
+    let s2 = lower.stats_at(FrameId(f), TREE_ORDER);
+    let mut tf = 0;
+    let mut th = 0;
+    let mut j = 0;
+    while j < TREE_HUGE {
+        let x = view_free_in(&old, (H / TREE_HUGE) * TREE_HUGE + j);
+        tf += x;
+        th += (x == LEN) as usize;
+        j += 1;
+    }
+    clause!(s2.free_frames == tf && s2.free_huge == th && s2.free_trees == (tf == TREE_FRAMES) as usize, "C04: the per-tree query agrees with the allocation state");
+}
+fn check_is_free<const ORDER: usize, const H: usize>() {
+    let (st, old) = any_state();
+    let lower = st.lower_shaped::<NBF>(NT * TREE_FRAMES);
+    let f = any_block_in::<ORDER, H>();
+    let b = blk(f % LEN, ORDER);
+    if ORDER < HUGE_ORDER {
+        kani::assume(ghost_zeros_block_fact(&old, H, &b, ORDER));
+    }
+    let r = lower.is_free(FrameId(f), ORDER);
+    clause!(r == block_free_b(&old, f, ORDER, &b), "C04: is_free reports a block free exactly when every frame of it is free");
+}
+macro_rules! query_harness {
+    ($name:ident, $body:expr) => {
+        #[kani::proof]
+        #[kani::unwind(10)]
+        #[kani::solver(kissat)]
+        fn $name() {
+            $body
+        }
+    };
+}
+query_harness!(c04_lower_stats, check_stats());
+query_harness!(c04_lower_stats_at_h1, check_stats_at::<1>());
+query_harness!(c04_lower_is_free_o0_h1, check_is_free::<0, 1>());
+query_harness!(c04_lower_is_free_o4_h2, check_is_free::<4, 2>());
+query_harness!(c04_lower_is_free_o7_h0, check_is_free::<7, 0>());
+query_harness!(c04_lower_is_free_o9_h3, check_is_free::<9, 3>());
+query_harness!(c04_lower_is_free_o10_h2, check_is_free::<10, 2>());
